@@ -90,9 +90,9 @@ Lemma end_mat A B :
                         (map (fun i => map (fun j => nth j B 0%nat) (seq 0 (length B))) (seq 0 (length A)))
   = map (fun i => map (fun j => Nat.min (nth i A 0%nat) (nth j B 0%nat)) (seq 0 (length B))) (seq 0 (length A)).
 Proof. rewrite vmap2_map_same. apply map_ext. intros i. apply vmap2_map_same. Qed.
-Theorem ami_bounds_tie : forall yr ye, run gen_ami_bounds [VNs yr; VNs ye] = bounds_val yr ye.
+Theorem ami_bounds_tie_gen : forall ext, ext_ok ext -> forall yr ye, runx ext gen_ami_bounds [VNs yr; VNs ye] = bounds_val yr ye.
 Proof.
-  intros. open_fun gen_ami_bounds. unfold bounds_val.
+  intros ext Hext yr ye. open_fun gen_ami_bounds. unfold bounds_val.
   step. step. step.
   rewrite rb_cons.
   match goal with |- context [exec ?sg ?ex ?s ?en] =>
@@ -103,7 +103,7 @@ Proof.
       destruct (length (SC.uniq ye) =? 0)%nat; reflexivity. }
   rewrite Hif. clear Hif.
   destruct (SC.mi_special yr ye) eqn:Esp; [reflexivity|].
-  step_open. rewrite ext_cont. unfold SC.contingency. destruct (length yr =? length ye)%nat eqn:Elen; cbn; [|reflexivity].
+  step_open. rewrite (Hext _ _). unfold SC.contingency. destruct (length yr =? length ye)%nat eqn:Elen; cbn; [|reflexivity].
   step_close. step. step. rewrite map_length, tab_length.
   set (tab := SC.contingency_tab yr ye). set (R := length (SC.uniq yr)). set (C := length (SC.uniq ye)).
   step_open. rewrite rowF, rows_int. cbn [lift_e]. step_close.
@@ -136,6 +136,10 @@ Proof.
   rewrite EA. unfold ami_start. cbn [map]. f_equal; [rewrite map_map; reflexivity|].
   rewrite map_map. apply map_ext. intros a. rewrite map_map. reflexivity.
 Qed.
+Theorem ami_bounds_tie : forall yr ye, run gen_ami_bounds [VNs yr; VNs ye] = bounds_val yr ye.
+Proof. exact (ami_bounds_tie_gen core_ext ext_cont). Qed.
+Theorem ami_bounds_tie_prog : forall yr ye, runx prog_ext gen_ami_bounds [VNs yr; VNs ye] = bounds_val yr ye.
+Proof. exact (ami_bounds_tie_gen prog_ext prog_ext_ok). Qed.
 Print Assumptions ami_bounds_tie.
 
 (* the limits are the model's [emi_ranges] = the summation range of Proofs/SegmentAMI.v's emi_cell *)
